@@ -121,7 +121,7 @@ class LinearAlgebraMethods(object):
         # get from cache if possible
         # (not with overwrite: A itself has to receive the factors)
         if use_cache and not overwrite and isinstance(A, ctx.matrix) and \
-                A._LU and A._LU_prec >= ctx.prec:
+                A._LU and A._LU_prec == ctx.prec:
             # (a copy: the caller may modify what it is given)
             LU, p = A._LU
             return LU.copy(), p[:]
